@@ -98,6 +98,10 @@ pub mod chunks {
 /// but a hostile count runs into the end of the stream instead of reserving gigabytes first.
 const MAX_PREALLOC_ELEMENTS: usize = 4096;
 
+/// Upper bound on the vertices all portals of a root file may reference together (each portal keeps its
+/// own copy). Shipped files stay in the thousands (a handful of vertices per portal).
+const MAX_PORTAL_VERTEX_COPIES: usize = 1 << 20;
+
 fn bounded_capacity(count: usize) -> usize {
     count.min(MAX_PREALLOC_ELEMENTS)
 }
@@ -542,7 +546,11 @@ impl WmoParser {
         };
 
         mopt_chunk.seek_to_data(reader)?;
-        let mut portals = Vec::with_capacity(bounded_capacity(n_portals as usize));
+        // MOPT holds 20-byte entries: a MOHD count larger than the chunk must not walk into the chunks behind it
+        let n_portals = (n_portals as usize).min(mopt_chunk.header.size as usize / 20);
+        let mut portals = Vec::with_capacity(bounded_capacity(n_portals));
+        // Every portal owns a copy of its vertex range, so overlapping ranges multiply the MOPV data
+        let mut vertex_copies_left = MAX_PORTAL_VERTEX_COPIES;
 
         for _ in 0..n_portals {
             let vertex_index = reader.read_u16_le()? as usize;
@@ -555,16 +563,27 @@ impl WmoParser {
             // Skip plane distance
             reader.seek(SeekFrom::Current(4))?;
 
-            // Get portal vertices
-            let mut vertices = Vec::with_capacity(bounded_capacity(n_vertices));
-            for i in 0..n_vertices {
-                let vertex_idx = vertex_index + i;
-                if vertex_idx < portal_vertices.len() {
-                    vertices.push(portal_vertices[vertex_idx]);
-                } else {
-                    warn!("Portal vertex index out of bounds: {}", vertex_idx);
-                }
+            // Get portal vertices: the part of the range that MOPV really holds
+            let available = portal_vertices.len().saturating_sub(vertex_index);
+            if n_vertices > available {
+                warn!(
+                    "Portal vertex range {}..{} exceeds the {} vertices in MOPV",
+                    vertex_index,
+                    vertex_index + n_vertices,
+                    portal_vertices.len()
+                );
             }
+            let n_vertices = n_vertices.min(available);
+            if n_vertices > vertex_copies_left {
+                return Err(WmoError::InvalidFormat(format!(
+                    "Portals reference more than {MAX_PORTAL_VERTEX_COPIES} vertices in total"
+                )));
+            }
+            vertex_copies_left -= n_vertices;
+            let vertices = portal_vertices
+                .get(vertex_index..vertex_index + n_vertices)
+                .map(<[Vec3]>::to_vec)
+                .unwrap_or_default();
 
             portals.push(WmoPortal {
                 vertices,
